@@ -70,6 +70,8 @@ pub fn name_strategy(cfg: ClaimCfg) -> BoxedStrategy<String> {
     let mut choices: Vec<(u32, BoxedStrategy<String>)> = vec![
         (40, sel(PLAIN_NAMES)),
         (12, sel(VOCAB_NAMES)),
+        // rare: very long names (length at a byte / word boundary)
+        (1, select(&[63usize, 64, 65, 255, 256, 257, 1024][..]).prop_map(|n| format!("n{}", "x".repeat(n - 1))).boxed()),
         (10, random_ascii),
         (10, sel(HAZARD_NAMES)),
         (8, sel(BMP_NAMES)),
@@ -134,7 +136,7 @@ pub fn string_strategy(cfg: ClaimCfg) -> BoxedStrategy<String> {
         3 => vec(char_strategy(), 40..300).prop_map(|v| v.into_iter().collect::<String>()),
         // rare: strings around the sizes of common I/O buffers (a disclosure of several KB: a
         // portrait, a long free-text claim)
-        if cfg.big { 1 } else { 0 } => (select(&[1000usize, 3000, 3072, 4095, 4096, 4097, 6000, 8192, 12000][..]), select(&["a", "Zz", "é", "0123456789", "\\\"", " "][..]), char_strategy())
+        if cfg.big { 1 } else { 0 } => (select(&[127usize, 128, 255, 256, 257, 1000, 1023, 1024, 3000, 3072, 4095, 4096, 4097, 6000, 8192, 12000, 65535, 65536][..]), select(&["a", "Zz", "é", "0123456789", "\\\"", " "][..]), char_strategy())
             .prop_map(|(n, unit, tail)| {
                 let mut out = String::with_capacity(n + 8);
                 while out.len() < n {
@@ -159,7 +161,7 @@ fn short_f64() -> BoxedStrategy<f64> {
 
 const SPECIAL_F64: &[f64] = &[
     0.0, -0.0, 1.0, -1.0, 0.1, 0.30000000000000004, 1e23, 5e-324, 2.2250738585072014e-308, 2.225073858507201e-308, 1.7976931348623157e308,
-    1.0715660391465826e-75, 9007199254740993.0, 1e21, 1e-7, 123456.789, 3.141592653589793, 2.718281828459045, 4.35, 0.000001, 1e300, 1.5e-300,
+    1.0715660391465826e-75, 9007199254740993.0, 1e21, 3.4028234663852886e38, 3.4028235e38, 16777217.0, 4294967296.0, 9223372036854775808.0, 18446744073709551616.0, 1e15, 1e16, 1e17, 0.1e1, 100.0, 1.0e2, 1e-7, 123456.789, 3.141592653589793, 2.718281828459045, 4.35, 0.000001, 1e300, 1.5e-300,
     8.41e21, 9.5367431640625e-7, 1.7976931348623157e308,
 ];
 
@@ -177,6 +179,9 @@ pub fn number_strategy(cfg: ClaimCfg) -> BoxedStrategy<Value> {
     };
     prop_oneof![
         3 => select(&[0u64, 1, 2, 10, 255, 65536, 1683000000, u32::MAX as u64, i64::MAX as u64, (i64::MAX as u64) + 1, u64::MAX][..]).prop_map(Value::from),
+        // the edges of the machine integer types and of the f64 integer range
+        2 => select(&[127u64, 128, 256, 32767, 32768, 65535, 16777216, 16777217, 2147483647, 2147483648, 4294967296, 9007199254740991, 9007199254740992, 9007199254740993, 9223372036854775806, 18446744073709551614, 253402300799, 253402300800, 1000000000000, 100000000000000000][..]).prop_map(Value::from),
+        1 => select(&[-127i64, -128, -129, -32768, -32769, -2147483648, -2147483649, -4294967296, -9007199254740992, -9007199254740993][..]).prop_map(Value::from),
         2 => any::<u64>().prop_map(Value::from),
         2 => select(&[-1i64, -2, -255, i64::MIN, i64::MIN + 1, -1683000000][..]).prop_map(Value::from),
         1 => (i64::MIN..0i64).prop_map(Value::from),
@@ -198,7 +203,7 @@ pub fn leaf_strategy(cfg: ClaimCfg) -> BoxedStrategy<Value> {
 /// any JSON value (no reserved names), depth <= `depth`
 pub fn value_strategy(cfg: ClaimCfg, depth: u32) -> BoxedStrategy<Value> {
     // container sizes around typical capacity / batching thresholds
-    let edge_len = || select(&[15usize, 16, 17, 31, 32, 33, 48, 64, 65][..]);
+    let edge_len = || select(&[15usize, 16, 17, 31, 32, 33, 48, 64, 65, 127, 128, 129, 255, 256, 257][..]);
     let small = || prop_oneof![Just(Value::Null), any::<bool>().prop_map(Value::Bool), (0u64..1000).prop_map(Value::from), select(&["", "x", "é", "𐀀"][..]).prop_map(|s| Value::String(s.into()))];
     let leaf = prop_oneof![
         240 => leaf_strategy(cfg),
